@@ -41,8 +41,8 @@ type c16BadCase struct {
 var c16Map = reg("C16", "c16-map", checkC16)
 var c16Bad = reg("C16", "c16-malformed", checkC16Bad)
 
-var jsonKeys = []string{"a", "b", "a", "", "key with space", "<&>", "é", "#obj", "#arr", "x-y", "0", "a.b", "日本"}
-var jsonStrs = []string{"", "a", "AK", "x y", "é", "𝄞", "line\nbreak", "tab\t", "quote\"", "back\\slash", "</x>", "null", "true", "1", " "}
+var jsonKeys = []string{"a", "b", "a", "", "key with space", "<&>", "é", "#obj", "#arr", "x-y", "0", "a.b", "日本", "{", "}", "[", "]", ",", ":"}
+var jsonStrs = []string{"", "a", "AK", "x y", "é", "𝄞", "line\nbreak", "tab\t", "quote\"", "back\\slash", "</x>", "null", "true", "1", " ", "{", "}", "[", "]", ",", ":", "[]", "{}"}
 var jsonNums = []string{"0", "-0", "1", "-1", "1.5", "1e3", "1E+3", "1e-7", "12345678901234567890", "0.1", "5e-324", "1.7976931348623157e308", "100", "1.0", "2.50", "3.14", "2.71828", "1e21", "123456789012345678", "0.000001", "-12.5e-3"}
 
 func genJval(t *rapid.T, depth int) *jval {
@@ -339,6 +339,24 @@ func TestC16(t *testing.T) {
 		}
 		for i := 0; i < n; i++ {
 			v := genJval(t, rapid.IntRange(2, 9).Draw(t, "maxDepth"))
+			if rapid.IntRange(0, 11).Draw(t, "deepWrap") == 0 {
+				// far deeper than any fixed-size bookkeeping (60-140 containers), with
+				// members and items following the deep one on every outer level
+				inner := v
+				for k, m := 0, rapid.IntRange(60, 140).Draw(t, "wrapDepth"); k < m; k++ {
+					if rapid.Bool().Draw(t, "wrapArr") {
+						inner = &jval{K: "arr", Items: []*jval{inner}}
+					} else {
+						inner = &jval{K: "obj", Keys: []string{"k"}, Members: []*jval{inner}}
+					}
+				}
+				if rapid.Bool().Draw(t, "outerObj") {
+					v = &jval{K: "obj", Keys: []string{"a", "b"}, Members: []*jval{inner, genJval(t, 1)}}
+				} else {
+					v = &jval{K: "arr", Items: []*jval{inner, genJval(t, 1)}}
+				}
+				st.Class("nesting-beyond-60")
+			}
 			c.Values = append(c.Values, v)
 			sb.WriteString(jws(t))
 			renderJSON(t, v, &sb)
